@@ -150,7 +150,7 @@ pub fn profile_for(prop: &str, thorough: bool) -> Profile {
             p.embedded_k2_permille = 700;
             p.families = &["grid", "dyadic", "jitter", "cosph", "pinwheel", "pinwheel", "dyadic"];
             p.tune = Some(|w, _r, d| {
-                w.k2 = 30;
+                w.k2 = 45;
                 w.k3 = if d >= 3 { 8 } else { 1 };
                 w.remove = 14;
             });
